@@ -96,12 +96,8 @@ func init() {
 						ps = append(ps, Param{Name: fmt.Sprintf("healthy2-p%d-t%d-sp%d-%s", c.pc, c.tc, sp, sh), Bound: tb,
 							V: map[string]int{"pc": c.pc, "tc": c.tc, "sp": sp, "after_reconnect": 1}, S: map[string]string{"shape": sh, "mode": "healthy"}})
 					}
-					ats := []string{"idle", "pending", "busy", "busy-early"}
-					if sp == 0 {
-						// the peer falls silent in the middle of the frame that carries the response
-						// (only without server pings: the response is then server-to-client frame 0)
-						ats = append(ats, "midframe")
-					}
+					// "midframe": the peer falls silent in the middle of the frame that carries the response
+					ats := []string{"idle", "pending", "busy", "busy-early", "midframe"}
 					for _, at := range ats {
 						ps = append(ps, Param{Name: fmt.Sprintf("silent-p%d-t%d-sp%d-%s", c.pc, c.tc, sp, at), Bound: tb,
 							V: map[string]int{"pc": c.pc, "tc": c.tc, "sp": sp}, S: map[string]string{"shape": at, "mode": "silent"}})
@@ -248,7 +244,7 @@ func keepaliveBody(s *vsched.Sched, p Param) {
 	}
 	switch {
 	case mode == "silent" && shape == "midframe":
-		w.Net.ArmFrame(0, vnet.FrameCut{Kind: vnet.Blackhole, Dir: vnet.S2C, Frame: 0, Where: vnet.MidPayload})
+		w.Net.ArmFrame(0, vnet.FrameCut{Kind: vnet.Blackhole, Dir: vnet.S2C, Frame: 0, Where: vnet.MidPayload, DataOnly: true})
 		s.Go("caller", func() {
 			obs.Set("iss-call", "1")
 			_, err := cli.Big(context.Background(), int(5*pc/2/time.Millisecond), 20000)
